@@ -80,8 +80,16 @@ func (jit *JIterator) Get(ctx context.Context) (records.Record, error) {
 
 	rec, err := jit.ci.Get(ctx)
 	for err == io.EOF {
+		// eofPos is where the chunk iterator ran out of confirmed records
+		eofPos := jit.pos
 		err = jit.advanceChunk(ctx)
 		if err != nil {
+			if err == io.EOF && !jit.bkwrd && jit.pos.CId == eofPos.CId && jit.pos.Idx > eofPos.Idx {
+				// no following chunk: the selector answered with the current end of the same chunk, which can
+				// already lie behind records flushed after the chunk iterator reported EOF. Stay at the first
+				// record that was not read.
+				jit.pos = eofPos
+			}
 			return nil, err
 		}
 		rec, err = jit.ci.Get(ctx)
